@@ -49,7 +49,11 @@ Definition segs_inv (l : list segment) : Prop := Forall seg_inv l.
 (** the sticky error flag is never a null dereference or an invalid page range
     (the two kinds the invariant excludes; substr/fuel bounds are not tracked here) *)
 Definition err_ok (e : option err) : Prop :=
-  match e with Some ErrNullDeref | Some ErrBadRange => False | _ => True end.
+  match e with
+  | Some ErrNullDeref | Some ErrBadRange => False
+  | Some ErrDangling => cf_hist_guard cfg = false   (* only the source shape without the reset can reach it *)
+  | _ => True
+  end.
 
 (** geometry of a segmentation (segments stored reversed): the first segment
     starts at 0, each next one where the previous ends; every segment has
@@ -190,24 +194,53 @@ Proof.
   cbn. inversion H1; subst. constructor; [|assumption]. apply seg_inv_tags, seg_inv_clear.
 Qed.
 
-Lemma calc_loop_inv fuel caret sg :
-  segs_inv (sg_segs sg) -> segs_inv (sg_segs (fst (calc_loop cfg fuel caret sg))).
+Lemma punct_proceed_inv o h sg : segs_inv (sg_segs sg) -> segs_inv (sg_segs (fst (punct_proceed cfg o h sg))).
+Proof.
+  intros H. unfold punct_proceed. destruct (nth_error (sg_input sg) (cur_start sg)) as [ch|]; [|exact H].
+  destruct (negb (printable ch)); [exact H|]. destruct (punct_lookup cfg o ch); [|exact H].
+  cbn [fst]. apply add_segment_inv; [exact H | apply seg_inv_tags, seg_inv_new].
+Qed.
+
+(** a property every segmentor preserves holds after the round *)
+Lemma run_segmentors_ind (P : segmentation -> Prop) o h l :
+  (forall i sg, P sg -> P (fst (segmentor_proceed cfg o h i sg))) ->
+  forall sg, P sg -> P (run_segmentors cfg o h l sg).
+Proof.
+  intros Hstep. induction l as [|i r IH]; intros sg H; cbn [run_segmentors]; [exact H|].
+  pose proof (Hstep i sg H) as H1. destruct (segmentor_proceed cfg o h i sg) as [sg1 cont]. cbn [fst] in H1.
+  destruct cont; [apply IH|]; exact H1.
+Qed.
+
+Lemma segmentor_proceed_inv o h i sg :
+  segs_inv (sg_segs sg) -> segs_inv (sg_segs (fst (segmentor_proceed cfg o h i sg))).
+Proof.
+  intros H. destruct i; cbn [segmentor_proceed fst];
+    [apply abc_proceed_inv | apply punct_proceed_inv | apply fallback_proceed_inv]; exact H.
+Qed.
+
+Lemma seg_round_inv o h sg : segs_inv (sg_segs sg) -> segs_inv (sg_segs (seg_round cfg o h sg)).
+Proof.
+  unfold seg_round. apply (run_segmentors_ind (fun x => segs_inv (sg_segs x))). intros i x. apply segmentor_proceed_inv.
+Qed.
+
+Lemma calc_loop_inv o h fuel caret sg :
+  segs_inv (sg_segs sg) -> segs_inv (sg_segs (fst (calc_loop cfg o h fuel caret sg))).
 Proof.
   revert sg. induction fuel as [|f IH]; intros sg H; cbn [calc_loop].
   - destruct (has_finished sg); exact H.
   - destruct (has_finished sg); [exact H|].
-    pose proof (fallback_proceed_inv _ (abc_proceed_inv _ H)) as H2.
-    destruct (cur_start sg =? cur_end (fallback_proceed (abc_proceed cfg sg))); [exact H2|].
+    pose proof (seg_round_inv o h _ H) as H2.
+    destruct (cur_start sg =? cur_end (seg_round cfg o h sg)); [exact H2|].
     destruct (caret <=? cur_start sg); [exact H2|].
-    apply IH. destruct (has_finished (fallback_proceed (abc_proceed cfg sg))); [exact H2 | apply forward_inv; exact H2].
+    apply IH. destruct (has_finished (seg_round cfg o h sg)); [exact H2 | apply forward_inv; exact H2].
 Qed.
 
-Lemma calc_segmentation_inv caret sg :
-  segs_inv (sg_segs sg) -> segs_inv (sg_segs (fst (calc_segmentation cfg caret sg))).
+Lemma calc_segmentation_inv o h caret sg :
+  segs_inv (sg_segs sg) -> segs_inv (sg_segs (fst (calc_segmentation cfg o h caret sg))).
 Proof.
   intros H. unfold calc_segmentation.
-  pose proof (calc_loop_inv (S (length (sg_input sg))) caret sg H) as H1.
-  destruct (calc_loop cfg (S (length (sg_input sg))) caret sg) as [sg1 ok]. cbn [fst] in *.
+  pose proof (calc_loop_inv o h (S (length (sg_input sg))) caret sg H) as H1.
+  destruct (calc_loop cfg o h (S (length (sg_input sg))) caret sg) as [sg1 ok]. cbn [fst] in *.
   set (sg2 := match sg_segs sg1 with
               | g :: _ => if has_tag TPlaceholder (s_tags g) then sg1 else fst (trim sg1)
               | [] => sg1
@@ -280,21 +313,35 @@ Proof.
     by (rewrite add_segment_input, forward_input; exact E1).
   destruct (sg_segs sg1) as [|last r]; [exact Ea|]. destruct (has_tag TRaw (s_tags last)); [exact E1 | exact Ea].
 Qed.
-Lemma calc_loop_input fuel caret sg : sg_input (fst (calc_loop cfg fuel caret sg)) = sg_input sg.
+Lemma punct_proceed_input o h sg : sg_input (fst (punct_proceed cfg o h sg)) = sg_input sg.
+Proof.
+  unfold punct_proceed. destruct (nth_error (sg_input sg) (cur_start sg)) as [ch|]; [|reflexivity].
+  destruct (negb (printable ch)); [reflexivity|]. destruct (punct_lookup cfg o ch); [|reflexivity].
+  cbn [fst]. apply add_segment_input.
+Qed.
+Lemma segmentor_proceed_input o h i sg : sg_input (fst (segmentor_proceed cfg o h i sg)) = sg_input sg.
+Proof.
+  destruct i; cbn [segmentor_proceed fst]; [apply abc_proceed_input | apply punct_proceed_input | apply fallback_proceed_input].
+Qed.
+Lemma seg_round_input o h sg : sg_input (seg_round cfg o h sg) = sg_input sg.
+Proof.
+  unfold seg_round. apply (run_segmentors_ind (fun x => sg_input x = sg_input sg)); [|reflexivity].
+  intros i x E. rewrite segmentor_proceed_input. exact E.
+Qed.
+Lemma calc_loop_input o h fuel caret sg : sg_input (fst (calc_loop cfg o h fuel caret sg)) = sg_input sg.
 Proof.
   revert sg. induction fuel as [|f IH]; intros sg; cbn [calc_loop].
   - destruct (has_finished sg); reflexivity.
   - destruct (has_finished sg); [reflexivity|].
-    assert (E2 : sg_input (fallback_proceed (abc_proceed cfg sg)) = sg_input sg)
-      by (rewrite fallback_proceed_input; apply abc_proceed_input).
-    destruct (cur_start sg =? cur_end (fallback_proceed (abc_proceed cfg sg))); [exact E2|].
+    assert (E2 : sg_input (seg_round cfg o h sg) = sg_input sg) by apply seg_round_input.
+    destruct (cur_start sg =? cur_end (seg_round cfg o h sg)); [exact E2|].
     destruct (caret <=? cur_start sg); [exact E2|]. rewrite IH.
-    destruct (has_finished (fallback_proceed (abc_proceed cfg sg))); [exact E2 | rewrite forward_input; exact E2].
+    destruct (has_finished (seg_round cfg o h sg)); [exact E2 | rewrite forward_input; exact E2].
 Qed.
-Lemma calc_segmentation_input caret sg : sg_input (fst (calc_segmentation cfg caret sg)) = sg_input sg.
+Lemma calc_segmentation_input o h caret sg : sg_input (fst (calc_segmentation cfg o h caret sg)) = sg_input sg.
 Proof.
-  unfold calc_segmentation. pose proof (calc_loop_input (S (length (sg_input sg))) caret sg) as E1.
-  destruct (calc_loop cfg (S (length (sg_input sg))) caret sg) as [sg1 ok]. cbn [fst] in *.
+  unfold calc_segmentation. pose proof (calc_loop_input o h (S (length (sg_input sg))) caret sg) as E1.
+  destruct (calc_loop cfg o h (S (length (sg_input sg))) caret sg) as [sg1 ok]. cbn [fst] in *.
   set (sg2 := match sg_segs sg1 with
               | g :: _ => if has_tag TPlaceholder (s_tags g) then sg1 else fst (trim sg1)
               | [] => sg1
@@ -484,12 +531,11 @@ Qed.
 Lemma abc_proceed_cur_start sg : cur_start (abc_proceed cfg sg) = cur_start sg.
 Proof. unfold abc_proceed. destruct (cur_start sg <? _); [apply add_segment_cur | reflexivity]. Qed.
 
-(** one round of the segmentors never moves the end of the current segment before the round's start position *)
-Lemma round_progress sg :
-  sgeo sg -> cur_start sg <= cur_end (fallback_proceed (abc_proceed cfg sg)).
+(** the fallback segmentor never moves the end of the current segment before its start position *)
+Lemma fallback_progress sa :
+  sgeo sa -> cur_start sa <= cur_end (fallback_proceed sa).
 Proof.
-  intros H. pose proof (abc_proceed_geo sg H) as Ha. rewrite <- (abc_proceed_cur_start sg).
-  set (sa := abc_proceed cfg sg) in *. destruct (cur_geo sa Ha) as (A & B).
+  intros Ha. destruct (cur_geo sa Ha) as (A & B).
   unfold fallback_proceed. destruct (0 <? cur_len sa) eqn:El; [exact A|].
   destruct (cur_start sa =? length (sg_input sa)) eqn:Ek; [exact A|].
   apply Nat.ltb_ge in El.
@@ -508,10 +554,8 @@ Proof.
   assert (Hadd : k <= cur_end (fst (add_segment (fst (forward sg1)) (seg_with_tags (new_segment k (S k)) [TRaw])))).
   { destruct (add_segment_cur (fst (forward sg1)) (seg_with_tags (new_segment k (S k)) [TRaw])) as (_ & Hge).
     rewrite forward_cur_end in Hge. destruct C1 as [C1 | C1]; [lia|].
-    (* empty list: the segment (k, k+1) is pushed when k = 0, else nothing happens and cur_end = 0 ... k = cur_start of [] = 0 *)
     unfold add_segment, forward. rewrite C1. cbn [fst cur_start sg_segs s_start seg_with_tags new_segment].
     destruct (k =? 0) eqn:E0; cbn [negb fst]; [cbn; rewrite C1; cbn; lia|].
-    (* k <> 0 while the popped list is empty: then sa was [(k,k)] with chain start 0, so k = 0 *)
     exfalso. apply Nat.eqb_neq in E0. subst sg1. destruct (sg_segs sa) as [|g r] eqn:E; [unfold k, cur_start in E0; rewrite E in E0; lia|].
     unfold k, cur_start, cur_end in *. rewrite E in *.
     destruct (s_start g =? s_end g); [|rewrite E in C1; discriminate]. cbn in C1. rewrite E in C1. cbn in C1. subst r.
@@ -520,44 +564,80 @@ Proof.
   destruct (has_tag TRaw (s_tags last)); [|exact Hadd]. cbn. lia.
 Qed.
 
-Lemma calc_loop_geo fuel caret sg : sgeo sg -> sgeo (fst (calc_loop cfg fuel caret sg)).
+Lemma punct_proceed_geo o h sg : sgeo sg -> sgeo (fst (punct_proceed cfg o h sg)).
+Proof.
+  intros H. unfold punct_proceed. destruct (nth_error (sg_input sg) (cur_start sg)) as [ch|] eqn:En; [|exact H].
+  destruct (negb (printable ch)); [exact H|]. destruct (punct_lookup cfg o ch); [|exact H].
+  cbn [fst]. apply add_segment_geo; [exact H|]. split; cbn; [lia|].
+  assert (cur_start sg < length (sg_input sg)); [|lia]. apply nth_error_Some. rewrite En. discriminate.
+Qed.
+Lemma punct_proceed_cur_start o h sg : cur_start (fst (punct_proceed cfg o h sg)) = cur_start sg.
+Proof.
+  unfold punct_proceed. destruct (nth_error (sg_input sg) (cur_start sg)) as [ch|]; [|reflexivity].
+  destruct (negb (printable ch)); [reflexivity|]. destruct (punct_lookup cfg o ch); [|reflexivity].
+  cbn [fst]. apply add_segment_cur.
+Qed.
+Lemma segmentor_proceed_geo o h i sg : sgeo sg -> sgeo (fst (segmentor_proceed cfg o h i sg)).
+Proof.
+  intros H. destruct i; cbn [segmentor_proceed fst];
+    [apply abc_proceed_geo | apply punct_proceed_geo | apply fallback_proceed_geo]; exact H.
+Qed.
+Lemma seg_round_geo o h sg : sgeo sg -> sgeo (seg_round cfg o h sg).
+Proof. unfold seg_round. apply (run_segmentors_ind sgeo). intros i x. apply segmentor_proceed_geo. Qed.
+
+(** one round of the segmentors never moves the end of the current segment before the round's start position *)
+Lemma run_segmentors_progress o h l : forall sg,
+  sgeo sg -> cur_start sg <= cur_end (run_segmentors cfg o h l sg).
+Proof.
+  induction l as [|i r IH]; intros sg H; cbn [run_segmentors]; [apply (cur_geo sg H)|].
+  destruct i; cbn [segmentor_proceed].
+  - rewrite <- (abc_proceed_cur_start sg). apply IH, abc_proceed_geo, H.
+  - pose proof (punct_proceed_geo o h sg H) as G1. pose proof (punct_proceed_cur_start o h sg) as C1.
+    destruct (punct_proceed cfg o h sg) as [sg1 cont]. cbn [fst] in *. rewrite <- C1.
+    destruct cont; [apply IH, G1 | apply (cur_geo sg1 G1)].
+  - apply fallback_progress, H.
+Qed.
+Lemma round_progress o h sg : sgeo sg -> cur_start sg <= cur_end (seg_round cfg o h sg).
+Proof. apply run_segmentors_progress. Qed.
+
+Lemma calc_loop_geo o h fuel caret sg : sgeo sg -> sgeo (fst (calc_loop cfg o h fuel caret sg)).
 Proof.
   revert sg. induction fuel as [|f IH]; intros sg H; cbn [calc_loop].
   - destruct (has_finished sg); exact H.
   - destruct (has_finished sg); [exact H|].
-    pose proof (fallback_proceed_geo _ (abc_proceed_geo _ H)) as H2.
-    destruct (cur_start sg =? cur_end (fallback_proceed (abc_proceed cfg sg))); [exact H2|].
+    pose proof (seg_round_geo o h _ H) as H2.
+    destruct (cur_start sg =? cur_end (seg_round cfg o h sg)); [exact H2|].
     destruct (caret <=? cur_start sg); [exact H2|].
-    apply IH. destruct (has_finished (fallback_proceed (abc_proceed cfg sg))); [exact H2 | apply forward_geo; exact H2].
+    apply IH. destruct (has_finished (seg_round cfg o h sg)); [exact H2 | apply forward_geo; exact H2].
 Qed.
 
-Lemma calc_loop_finished fuel caret sg : has_finished sg = true -> calc_loop cfg fuel caret sg = (sg, true).
+Lemma calc_loop_finished o h fuel caret sg : has_finished sg = true -> calc_loop cfg o h fuel caret sg = (sg, true).
 Proof. intros H. destruct fuel; cbn [calc_loop]; rewrite H; reflexivity. Qed.
 
 (** CalculateSegmentation finishes: every round that goes on starts strictly
     further right, so |input| + 1 rounds suffice *)
-Lemma calc_loop_ok fuel caret : forall sg,
-  sgeo sg -> length (sg_input sg) - cur_start sg < fuel -> snd (calc_loop cfg fuel caret sg) = true.
+Lemma calc_loop_ok o h fuel caret : forall sg,
+  sgeo sg -> length (sg_input sg) - cur_start sg < fuel -> snd (calc_loop cfg o h fuel caret sg) = true.
 Proof.
   induction fuel as [|f IH]; intros sg H Hm; [lia|]. cbn [calc_loop].
   destruct (has_finished sg) eqn:Efin; [reflexivity|].
-  pose proof (fallback_proceed_geo _ (abc_proceed_geo _ H)) as H2.
-  pose proof (round_progress sg H) as Hp.
-  set (sg2 := fallback_proceed (abc_proceed cfg sg)) in *.
+  pose proof (seg_round_geo o h _ H) as H2.
+  pose proof (round_progress o h sg H) as Hp.
+  set (sg2 := seg_round cfg o h sg) in *.
   destruct (cur_start sg =? cur_end sg2) eqn:Ee; [reflexivity|]. apply Nat.eqb_neq in Ee.
   destruct (caret <=? cur_start sg); [reflexivity|].
-  destruct (has_finished sg2) eqn:Ef2; [rewrite (calc_loop_finished f caret sg2 Ef2); reflexivity|].
+  destruct (has_finished sg2) eqn:Ef2; [rewrite (calc_loop_finished o h f caret sg2 Ef2); reflexivity|].
   apply IH; [apply forward_geo, H2|]. rewrite forward_input, (forward_cur_start sg2 H2).
-  assert (Hin : sg_input sg2 = sg_input sg) by (unfold sg2; rewrite fallback_proceed_input, abc_proceed_input; reflexivity).
+  assert (Hin : sg_input sg2 = sg_input sg) by (unfold sg2; apply seg_round_input).
   rewrite Hin. unfold has_finished in Efin. apply Nat.leb_gt in Efin. destruct (cur_geo sg H) as (A & _). lia.
 Qed.
 
-Lemma calc_segmentation_geo caret sg : sgeo sg -> sgeo (fst (calc_segmentation cfg caret sg)) /\ snd (calc_segmentation cfg caret sg) = true.
+Lemma calc_segmentation_geo o h caret sg : sgeo sg -> sgeo (fst (calc_segmentation cfg o h caret sg)) /\ snd (calc_segmentation cfg o h caret sg) = true.
 Proof.
   intros H. unfold calc_segmentation.
-  pose proof (calc_loop_geo (S (length (sg_input sg))) caret sg H) as H1.
-  pose proof (calc_loop_ok (S (length (sg_input sg))) caret sg H ltac:(lia)) as Hok.
-  destruct (calc_loop cfg (S (length (sg_input sg))) caret sg) as [sg1 ok]. cbn [fst snd] in *. subst ok.
+  pose proof (calc_loop_geo o h (S (length (sg_input sg))) caret sg H) as H1.
+  pose proof (calc_loop_ok o h (S (length (sg_input sg))) caret sg H ltac:(lia)) as Hok.
+  destruct (calc_loop cfg o h (S (length (sg_input sg))) caret sg) as [sg1 ok]. cbn [fst snd] in *. subst ok.
   split; [|reflexivity].
   set (sg2 := match sg_segs sg1 with
               | g :: _ => if has_tag TPlaceholder (s_tags g) then sg1 else fst (trim sg1)
@@ -615,19 +695,53 @@ Lemma sgeo_same sg l' :
 Proof. intros Hs He (Hc & Hf). split; cbn; [apply (chain_same _ _ Hs He Hc) | apply (geo_same _ _ _ Hs He Hf)]. Qed.
 
 (** an error other than the two excluded kinds; a fuel error only when the geometric invariant is off *)
-Definition err_allowed (e : err) : Prop := e = ErrSubstr \/ (e = ErrFuel /\ ~ GE).
+Definition err_allowed (e : err) : Prop :=
+  e = ErrSubstr \/ (e = ErrDangling /\ cf_hist_guard cfg = false) \/ (e = ErrFuel /\ ~ GE).
 Lemma err_ok_fail c e : err_allowed e -> err_ok (cx_err c) -> err_ok (cx_err (ctx_fail c e)).
-Proof. intros He H. cbn. destruct (cx_err c); [exact H|]. destruct He as [-> | (-> & _)]; exact I. Qed.
+Proof. intros He H. cbn. destruct (cx_err c); [exact H|]. destruct He as [-> | [(-> & Hg) | (-> & _)]]; [exact I | exact Hg | exact I]. Qed.
+
+(** with the reset in the raw branch [last] never ages, so it is never read after its record was popped *)
+Lemma hist_step_guarded input a g :
+  (forall t age, ha_last a = Some (t, age) -> age = 0) -> ha_live a = true ->
+  (forall t age, ha_last (hist_step true input a g) = Some (t, age) -> age = 0) /\ ha_live (hist_step true input a g) = true.
+Proof.
+  intros H0 Hl. unfold hist_step. destruct (selected_cand g) as [cd|].
+  - destruct (ha_last a) as [[t0 age0]|] eqn:El.
+    + pose proof (H0 t0 age0 eq_refl) as ->. rewrite Hl. cbn [andb kMaxRecords Nat.ltb Nat.leb].
+      destruct (bytes_eqb t0 (c_type cd)); destruct (status_geb (s_status g) SConfirmed); cbn [ha_last ha_live hacc_push];
+        split; try reflexivity; intros t age X; try discriminate X; injection X as _ <-; reflexivity.
+    + rewrite Hl. destruct (status_geb (s_status g) SConfirmed); cbn [ha_last ha_live hacc_push andb];
+        split; try reflexivity; intros t age X; try discriminate X; injection X as _ <-; reflexivity.
+  - destruct (substr_se input (s_start g) (s_end g)) as [t ok]. cbn [ha_last ha_live hacc_push].
+    split; [intros t0 age X; discriminate X | exact Hl].
+Qed.
+Lemma hist_fold_guarded input l : forall a,
+  (forall t age, ha_last a = Some (t, age) -> age = 0) -> ha_live a = true ->
+  ha_live (fold_left (hist_step true input) l a) = true.
+Proof.
+  induction l as [|g r IH]; intros a H0 Hl; [exact Hl|]. cbn [fold_left].
+  destruct (hist_step_guarded input a g H0 Hl) as (A & B). apply IH; assumption.
+Qed.
+Lemma hist_push_comp_live h sg input : snd (hist_push_comp true h sg input) = true.
+Proof.
+  unfold hist_push_comp.
+  pose proof (hist_fold_guarded input (segs_fwd sg) (mkHacc h None 0 true true)) as H.
+  set (a := fold_left (hist_step true input) (segs_fwd sg) (mkHacc h None 0 true true)) in *.
+  assert (Ha : ha_live a = true) by (apply H; [intros t age X; discriminate X | reflexivity]).
+  destruct (ha_end a <? length input); cbn [snd hacc_push ha_live]; exact Ha.
+Qed.
 Lemma cinv_err c e : err_allowed e -> cinv c -> cinv (ctx_fail c e).
 Proof.
   intros He ((H1 & H2 & H3 & H4 & H5 & Hg) & H6). split; [|exact H6].
   split; [exact H1|]. split; [exact H2|]. split; [exact H3|]. split; [exact H4|].
   split; [apply err_ok_fail; assumption|]. intros G. destruct (Hg G) as (Hgeo & Hne). split; [exact Hgeo|].
-  cbn. destruct (cx_err c) as [x|]; [exact Hne|]. destruct He as [-> | (_ & Hn)]; [discriminate | contradiction].
+  cbn. destruct (cx_err c) as [x|]; [exact Hne|]. destruct He as [-> | [(-> & _) | (_ & Hn)]]; [discriminate | discriminate | contradiction].
 Qed.
 Lemma cinv_check c b e : (b = false -> err_allowed e) -> cinv c -> cinv (ctx_check c b e).
 Proof. intros He H. unfold ctx_check. destruct b; [exact H | apply cinv_err; auto]. Qed.
 Lemma cinv_opts c o : cinv c -> cinv (ctx_with_opts c o).
+Proof. intros H; exact H. Qed.
+Lemma cinv_hist c h : cinv c -> cinv (ctx_with_hist c h).
 Proof. intros H; exact H. Qed.
 Lemma cinv_comp c sg :
   cinv c -> segs_inv (sg_segs sg) -> sg_input sg = sg_input (cx_comp c) -> (GE -> sgeo sg) -> cinv (ctx_with_comp c sg).
@@ -657,17 +771,17 @@ Proof.
   assert (G1 : GE -> sgeo sg1).
   { intros G. destruct (Hg G) as (Hgeo & _). subst sg1 sg0.
     destruct ((cx_caret c <? length (cx_input c)) && _); [apply reset_input_geo|]; apply reset_input_geo; exact Hgeo. }
-  pose proof (calc_segmentation_inv (cx_caret c) sg1 H1) as H2.
+  pose proof (calc_segmentation_inv (cx_opts c) (cx_hist c) (cx_caret c) sg1 H1) as H2.
   assert (Hi1 : IP (sg_input sg1)).
   { subst sg1. destruct ((cx_caret c <? length (cx_input c)) && (cx_caret c =? confirmed_pos sg0));
       [rewrite reset_input_input; exact Hi | subst sg0; rewrite reset_input_input; apply IP_firstn; exact Hi]. }
   assert (Hl1 : length (sg_input sg1) <= length (cx_input c) /\ cx_caret c <= length (sg_input sg1)).
   { subst sg1. destruct ((cx_caret c <? length (cx_input c)) && (cx_caret c =? confirmed_pos sg0));
       [rewrite reset_input_input; lia | subst sg0; rewrite reset_input_input, firstn_length; lia]. }
-  pose proof (calc_segmentation_input (cx_caret c) sg1) as Ci.
-  assert (G2 : GE -> sgeo (fst (calc_segmentation cfg (cx_caret c) sg1)) /\ snd (calc_segmentation cfg (cx_caret c) sg1) = true)
+  pose proof (calc_segmentation_input (cx_opts c) (cx_hist c) (cx_caret c) sg1) as Ci.
+  assert (G2 : GE -> sgeo (fst (calc_segmentation cfg (cx_opts c) (cx_hist c) (cx_caret c) sg1)) /\ snd (calc_segmentation cfg (cx_opts c) (cx_hist c) (cx_caret c) sg1) = true)
     by (intros G; apply calc_segmentation_geo, G1, G).
-  destruct (calc_segmentation cfg (cx_caret c) sg1) as [sg2 okf] eqn:Ec. cbn [fst snd] in H2, Ci, G2.
+  destruct (calc_segmentation cfg (cx_opts c) (cx_hist c) (cx_caret c) sg1) as [sg2 okf] eqn:Ec. cbn [fst snd] in H2, Ci, G2.
   assert (Hi2 : IP (sg_input sg2)) by (rewrite Ci; exact Hi1).
   pose proof (translate_segs_inv (cx_opts c) sg2 Hi2 H2) as H3.
   assert (G3 : GE -> sgeo (fst (translate_segs translate (cx_opts c) sg2)) /\ snd (translate_segs translate (cx_opts c) sg2) = true)
@@ -678,7 +792,7 @@ Proof.
   apply cinv_check.
   { intros ->. left; reflexivity. }
   apply cinv_check.
-  { intros ->. right. split; [reflexivity|]. intros G. destruct (G2 G) as (_ & X). discriminate. }
+  { intros ->. right; right. split; [reflexivity|]. intros G. destruct (G2 G) as (_ & X). discriminate. }
   split; [split; [exact Hc|]; split; [exact H3|]; split; [exact Hi|]; split; [|split; [exact He|]]|];
     cbn [ctx_with_comp cx_comp cx_input cx_err cx_caret]; rewrite ?E3, ?Ci.
   - rewrite <- Ci. exact Hi2.
@@ -934,14 +1048,21 @@ Proof. intros H; exact H. Qed.
 Lemma commit_inv s : sinv s -> sinv (fst (commit cfg translate s)).
 Proof.
   intros H. unfold commit. destruct (negb (is_composing (st_ctx s))); [exact H|].
-  destruct (ctx_commit_text (st_ctx s)) as [text ok]. cbn [fst]. apply sinv_with.
-  apply clear_inv. cbn. apply cinv_check; [intros _; left; reflexivity | exact H].
+  destruct (hist_push_comp (cf_hist_guard cfg) (cx_hist (st_ctx s)) (cx_comp (st_ctx s)) (cx_input (st_ctx s))) as [[h okh] live] eqn:Ehp.
+  match goal with |- context [ctx_commit_text ?c] => destruct (ctx_commit_text c) as [text ok] end. cbn [fst]. apply sinv_with.
+  apply clear_inv. cbn [st_ctx st_with_ctx sink]. apply cinv_check; [intros _; left; reflexivity|].
+  apply cinv_check.
+  { intros ->. right; left. split; [reflexivity|]. destruct (cf_hist_guard cfg) eqn:Eg; [|reflexivity].
+    pose proof (hist_push_comp_live (cx_hist (st_ctx s)) (cx_comp (st_ctx s)) (cx_input (st_ctx s))) as X.
+    rewrite Ehp in X. discriminate X. }
+  apply cinv_check; [intros _; left; reflexivity|].
+  apply cinv_hist. exact H.
 Qed.
 
 Lemma on_select_inv s : sinv s -> sg_segs (cx_comp (st_ctx s)) <> [] -> sinv (on_select cfg translate s).
 Proof.
   intros H Hne. unfold on_select.
-  match goal with |- sinv (mkSt (st_ctx ?x) _ _ _) => assert (Hx : sinv x); [|exact Hx] end.
+  match goal with |- sinv (mkSt (st_ctx ?x) _ _ _ _) => assert (Hx : sinv x); [|exact Hx] end.
   destruct (sg_segs (cx_comp (st_ctx s))) as [|g0 r] eqn:E; [congruence|].
   pose proof (seg_inv_close g0 (back_inv _ _ _ H E)) as Hg.
   assert (Hcg : forall x, s_start x = s_start (seg_close g0) -> s_end x = s_end (seg_close g0) ->
@@ -1299,21 +1420,131 @@ Proof.
   repeat match goal with |- sinv (fst (if ?b then _ else _)) => destruct b; [exact H|] end. exact H.
 Qed.
 
+(** ---- Punctuator ---- *)
+Definition hd_map (f : segment -> segment) (l : list segment) : list segment :=
+  match l with [] => [] | g :: r => f g :: r end.
+Lemma map_front_eq f l : map_front f l = rev (hd_map f (rev l)).
+Proof. unfold map_front. destruct (rev l); reflexivity. Qed.
+Lemma map_front_Forall (P : segment -> Prop) f l : (forall g, P g -> P (f g)) -> Forall P l -> Forall P (map_front f l).
+Proof.
+  intros Hf H. rewrite map_front_eq. apply Forall_rev. apply Forall_rev in H. destruct (rev l) as [|g r]; [exact H|].
+  cbn. inversion H; subst. constructor; [apply Hf|]; assumption.
+Qed.
+Lemma map_front_map {B} (p : segment -> B) f l : (forall g, p (f g) = p g) -> map p (map_front f l) = map p l.
+Proof.
+  intros Hf. rewrite map_front_eq, map_rev.
+  assert (E : map p (hd_map f (rev l)) = map p (rev l)) by (destruct (rev l) as [|g r]; [reflexivity | cbn; rewrite Hf; reflexivity]).
+  rewrite E, <- map_rev, rev_involutive. reflexivity.
+Qed.
+
+Lemma alternate_punct_inv c b d : cinv c -> cinv (fst (alternate_punct c b d)).
+Proof.
+  intros H. unfold alternate_punct. destruct d; try exact H.
+  destruct (sg_segs (cx_comp c)) as [|g r] eqn:E; [exact H|].
+  destruct (negb (status_geb SVoid (s_status g)) && has_tag TPunct (s_tags g)); [|exact H].
+  destruct (substr_se (cx_input c) (s_start g) (s_end g)) as [t ok].
+  assert (H1 : cinv (ctx_check c ok ErrSubstr)) by (apply cinv_check; [intros _; left; reflexivity | exact H]).
+  assert (E1 : sg_segs (cx_comp (ctx_check c ok ErrSubstr)) = g :: r) by (destruct ok; exact E).
+  destruct (bytes_eqb [b] t); [|exact H1].
+  destruct (s_menu g) as [m|] eqn:Em; [|exact H1].
+  destruct (menu_prepare m (size_wrap (s_sel g + 2)) =? 0)%N eqn:Ez; [exact H1|]. cbn [fst].
+  apply cinv_set_back; [exact H1| |same_geo H1 E1].
+  apply seg_inv_status, seg_inv_sel_at; [apply (back_inv _ g r H1 E1)|].
+  intros m' Hm' Hne. rewrite Em in Hm'. injection Hm' as <-. apply N.eqb_neq in Ez.
+  pose proof (N.mod_lt (size_wrap (s_sel g + 1)) _ Ez) as Hlt. unfold menu_prepare in *. lia.
+Qed.
+
+Lemma pair_punct_inv s fs b : sinv s -> sinv (fst (pair_punct cfg translate s fs b)).
+Proof.
+  intros H. unfold pair_punct. destruct (sg_segs (cx_comp (st_ctx s))) as [|g r] eqn:E; [exact H|].
+  destruct (negb (status_geb SVoid (s_status g)) && has_tag TPunct (s_tags g)); [|exact H].
+  destruct (s_menu g) as [m|] eqn:Em; [|exact H].
+  destruct (menu_prepare m 2 <? 2)%N eqn:E2; [exact H|]. cbn [fst].
+  apply confirm_current_selection_inv. unfold sinv. cbn [st_ctx].
+  apply cinv_set_back; [exact H| |same_geo H E]. apply seg_inv_sel_at; [apply (back_inv _ g r H E)|].
+  intros m' Hm' Hne. rewrite Em in Hm'. injection Hm' as <-. apply N.ltb_ge in E2. unfold menu_prepare in E2.
+  match goal with |- (?x mod 2 < _)%N => pose proof (N.mod_lt x 2 ltac:(lia)) end. lia.
+Qed.
+
+Lemma reconvert_digit_separator_inv c b : cinv c -> cinv (fst (reconvert_digit_separator cfg translate c b)).
+Proof.
+  intros H. unfold reconvert_digit_separator.
+  destruct (match cf_digit_seps cfg with [] => true | _ => false end); [exact H|].
+  destruct (negb (bytes_eqb (cx_input c) [b])); [exact H|].
+  destruct (segs_fwd (cx_comp c)) as [|g0 r0]; [exact H|].
+  destruct (has_tag TPunctNumber (s_tags g0)); [|exact H]. cbn [fst].
+  apply reopen_previous_segment_inv. apply cinv_comp; [exact H| |reflexivity|].
+  - cbn [sg_segs sg_with_segs]. apply map_front_Forall; [|apply (cinv_segs c H)].
+    intros g Hg. apply seg_inv_status, seg_inv_tags, Hg.
+  - intros G. destruct (cinv_geo c H G) as (Hgeo & _). apply sgeo_same; [| |exact Hgeo]; cbn [sg_segs sg_with_segs];
+      apply map_front_map; intros g; reflexivity.
+Qed.
+
+Lemma punctuator_process_inv s k : sinv s -> sinv (fst (punctuator_process cfg translate s k)).
+Proof.
+  intros H. unfold punctuator_process.
+  destruct (k_release k || k_ctrl k || k_alt k || k_super k); [exact H|].
+  destruct ((k_code k <? 32) || (127 <=? k_code k))%Z eqn:Er; [exact H|].
+  apply orb_false_iff in Er as (E1 & E2). apply Z.ltb_ge in E1. apply Z.leb_gt in E2.
+  assert (Hkey : IP [byte_of_N (Z.to_N (k_code k))]) by (apply IP_key; lia).
+  assert (Hpush : forall s0, sinv s0 -> sinv (on_ctx s0 (fun c => push_input cfg translate c (byte_of_N (Z.to_N (k_code k)))))).
+  { intros s0 H0. apply on_ctx_inv; [exact H0|]. intros c Hc. apply push_input_inv; assumption. }
+  cbv zeta.
+  destruct (get_option (st_ctx s) opt_ascii_punct); [exact H|].
+  match goal with |- sinv (fst (if ?b then _ else _)) => destruct b end; [cbn [fst]; apply commit_inv, Hpush, H|].
+  match goal with |- sinv (fst (if ?b then _ else _)) => destruct b end; [exact H|].
+  match goal with |- sinv (fst (if ?b then _ else _)) => destruct b end.
+  { pose proof (Hpush s H) as H1.
+    match goal with |- sinv (fst (if ?b then _ else _)) => destruct b end; [|exact H1].
+    destruct (cf_digit_sep_commit cfg); cbn [fst]; [apply commit_inv, H1|].
+    apply on_ctx_inv; [exact H1|]. intros c Hc. apply cinv_comp; [exact Hc | apply forward_inv, Hc | apply forward_input|].
+    intros G. apply forward_geo, (cinv_geo c Hc G). }
+  destruct (punct_lookup cfg (cx_opts (st_ctx s)) (byte_of_N (Z.to_N (k_code k)))) as [d|]; [|exact H].
+  pose proof (alternate_punct_inv (st_ctx s) (byte_of_N (Z.to_N (k_code k))) d H) as Ha.
+  destruct (alternate_punct (st_ctx s) (byte_of_N (Z.to_N (k_code k))) d) as [c1 alt]. cbn [fst] in Ha.
+  destruct alt; [exact Ha|].
+  pose proof (reconvert_digit_separator_inv c1 (byte_of_N (Z.to_N (k_code k))) Ha) as Hr.
+  destruct (reconvert_digit_separator cfg translate c1 (byte_of_N (Z.to_N (k_code k)))) as [c2 rec]. cbn [fst] in Hr.
+  match goal with |- context [punct_is_translated (st_ctx ?x) TPunct] => set (s1 := x) end.
+  assert (H1 : sinv s1) by (subst s1; destruct rec; [exact Hr | apply Hpush; exact Ha]).
+  clearbody s1. cbn [fst].
+  destruct (punct_is_translated (st_ctx s1) TPunct); [|exact H1].
+  destruct d as [v | l | [cm|] [pr|]]; try exact H1.
+  - apply confirm_current_selection_inv, H1.
+  - apply commit_inv, H1.
+  - apply commit_inv, H1.
+  - apply pair_punct_inv, H1.
+Qed.
+
+Lemma proc_of_inv i s k : sinv s -> sinv (fst (proc_of cfg translate i s k)).
+Proof.
+  intros H. destruct i; cbn [proc_of];
+    [apply speller_process_inv | apply punctuator_process_inv | apply selector_process_inv
+     | apply navigator_process_inv | apply editor_process_inv]; exact H.
+Qed.
+
+Lemma run_processors_inv ps k :
+  (forall p, In p ps -> forall s, sinv s -> sinv (fst (p s k))) ->
+  forall s, sinv s -> sinv (fst (run_processors ps s k)).
+Proof.
+  induction ps as [|p r IH]; intros Hp s H; cbn [run_processors]; [exact H|].
+  pose proof (Hp p (or_introl eq_refl) s H) as H1. destruct (p s k) as [s1 ret]. cbn [fst] in H1.
+  destruct ret; cbn [fst]; try exact H1. apply IH; [|exact H1]. intros q Hq. apply Hp. right; exact Hq.
+Qed.
+
 Lemma process_key_inv s k : sinv s -> sinv (fst (process_key cfg translate s k)).
 Proof.
-  intros H. unfold process_key, processors. cbn [run_processors].
-  pose proof (speller_process_inv s k H) as H1.
-  destruct (speller_process cfg translate s k) as [s1 r1]. cbn [fst] in H1. destruct r1; cbn [fst]; try exact H1;
-    try (pose proof (shape_process_inv s1 k H1) as Hs; destruct (shape_process s1 k) as [sx rx]; destruct rx; exact Hs).
-  pose proof (selector_process_inv s1 k H1) as H2.
-  destruct (selector_process cfg translate s1 k) as [s2 r2]. cbn [fst] in H2. destruct r2; cbn [fst]; try exact H2;
-    try (pose proof (shape_process_inv s2 k H2) as Hs; destruct (shape_process s2 k) as [sx rx]; destruct rx; exact Hs).
-  pose proof (navigator_process_inv s2 k H2) as H3.
-  destruct (navigator_process cfg translate s2 k) as [s3 r3]. cbn [fst] in H3. destruct r3; cbn [fst]; try exact H3;
-    try (pose proof (shape_process_inv s3 k H3) as Hs; destruct (shape_process s3 k) as [sx rx]; destruct rx; exact Hs).
-  pose proof (editor_process_inv s3 k H3) as H4.
-  destruct (editor_process cfg translate s3 k) as [s4 r4]. cbn [fst] in H4. destruct r4; cbn [fst]; try exact H4;
-    try (pose proof (shape_process_inv s4 k H4) as Hs; destruct (shape_process s4 k) as [sx rx]; destruct rx; exact Hs).
+  intros H. unfold process_key.
+  assert (H1 : sinv (fst (run_processors (processors cfg translate) s k))).
+  { apply run_processors_inv; [|exact H]. intros p Hp s0 H0. unfold processors in Hp. apply in_map_iff in Hp as (i & <- & _).
+    apply proc_of_inv, H0. }
+  destruct (run_processors (processors cfg translate) s k) as [s1 ret]. cbn [fst] in H1.
+  assert (H2 : sinv (on_ctx s1 (fun c => ctx_with_hist c (hist_push_key (cx_hist c) k)))).
+  { apply on_ctx_inv; [exact H1|]. intros c Hc. apply cinv_hist, Hc. }
+  pose proof (shape_process_inv _ k H2) as Hs.
+  destruct ret; cbn [fst]; try exact H1;
+    cbv zeta; destruct (shape_process (on_ctx s1 (fun c => ctx_with_hist c (hist_push_key (cx_hist c) k))) k) as [sx rx];
+    destruct rx; exact Hs.
 Qed.
 
 (** ---- the API layer ---- *)
@@ -1644,7 +1875,9 @@ Qed.
     histories the only undefined operation the modelled core can still reach is
     std::string::substr with pos > size (ErrSubstr) – no null dereference, no
     invalid page range, and CalculateSegmentation always finishes within its
-    |input| + 1 rounds (no ErrFuel) *)
+    |input| + 1 rounds (no ErrFuel); the source fact [cf_hist_guard] excludes the
+    dangling [last] of CommitHistory::Push (see [commit_history_dangling] in InvProofs.v
+    for the source shape without the reset) *)
 Definition obs_only_substr (o : obs) : Prop :=
   match o with ObsCrash ErrSubstr | Obs _ _ => True | ObsCrash _ => False end.
 
@@ -1652,10 +1885,11 @@ Theorem only_substr_can_fail (cfg : config) (translate : bytes -> seginfo -> lis
   (1 <= cf_page_size cfg)%Z ->
   (forall i s, (Z.of_nat (length (translate i s)) + cf_page_size cfg < 2147483648)%Z) ->
   cf_del_checked cfg = true ->
+  cf_hist_guard cfg = true ->
   (forall i s c, In c (translate i s) -> si_start s <= c_end c) ->
   forall ops, Forall obs_only_substr (snd (run cfg translate ops)).
 Proof.
-  intros Hps Hlen Hdel Hce ops.
+  intros Hps Hlen Hdel Hhg Hce ops.
   set (MPg := fun (st : nat) (m : menu) => forall c, In c m -> st <= c_end c).
   assert (Hops : Forall (op_ok (fun _ => True)) ops) by (apply Forall_forall; intros o _; destruct o; exact I).
   assert (Hrun : forall l s, sinv cfg MPg (fun _ => True) True s ->
